@@ -5,15 +5,17 @@ _M = ["rmse", "rmsle", "rmspe", "rpd", "smape", "residuals", "r2"]
 _L = ["rmse", "rmsle", "linear_residuals", "smape", "rpd", "rmspe", "linear_fit", "linear_transform",
       "rmse_points", "rmsle_points", "linear_residuals_points", "smape_points", "rpd_points", "rmspe_points",
       "linear_fit_points", "linear_transform_points", "linear_fit_transform#def", "linear_fit_transform_points#def"]
-DEDUCTIVE = [("metrics", "kneeliverse.metrics." + m) for m in _M] + [("metrics", "kneeliverse.linear_fit." + m) for m in _L]
+DEDUCTIVE = [("metrics", "kneeliverse.metrics." + m) for m in _M] + [("metrics", "kneeliverse.linear_fit." + m) for m in _L] \
+    + [("metrics", "lemma:%s_symmetric" % m) for m in ("rmse", "residuals", "smape")]
 EXPLANATION = ("Each metric's result is proved equal to its textbook formula (eps guard included) written independently with the spec fold "
                "Sum; equality of sums is by extensionality (pointwise side proofs). The linear-fit wrappers are proved to equal the metric "
                "applied to m*x+b through the callee contracts; the end-point fit passes through the first and last point. Mode R. "
-               "Symmetry / range consequences, best-fit R2 = squared Pearson correlation and lf.linear_r2 are covered by the bounded layer "
+               "Symmetry of rmse, residuals and smape is proved as three lemmas over the postcondition formulas (Sum extensionality). "
+               "Range consequences, best-fit R2 = squared Pearson correlation and lf.linear_r2 are covered by the bounded layer "
                "(exact rational oracle).")
 ASSUMPTIONS = ["mode R: 'to within floating-point rounding' is not decided by the proof; the bounded layer compares with exact rational evaluation at rel. tol. 1e-9",
                "log is an uninterpreted function; sqrt axiomatised; numba-compiled code assumed to follow its Python source (A-NUMBA)"]
 LEVEL_TEXT = ("Proof (A-REAL, A-NUMBA) that r2, rmse, rmsle, rmspe, rpd, smape, residuals and the linear-fit wrappers equal their definitions for "
-              "all vectors; bounded exact-rational layer for rounding, symmetry/range consequences and the Pearson clause.")
+              "all vectors; symmetry of rmse/residuals/smape as lemmas over those formulas; bounded exact-rational layer for rounding, range consequences and the Pearson clause.")
 LEVEL_NOTE = "A-REAL, A-NUMBA; np.mean/np.sum/np.square/np.abs/np.log/np.maximum/np.sqrt contracts assumed; lf.r2 (np.corrcoef) and lf.linear_r2 bounded only."
 TECHNIQUE = "contract-based deductive verification (AST->VC, z3; Sum extensionality by side proofs); bounded exact-rational run-time layer as labelled stand-in"
